@@ -426,9 +426,10 @@ func dependsOnCarriedPhi(v ssa.Value, region map[*ssa.BasicBlock]bool, seen map[
 // frame: read - split - edit - join - write of one file
 
 type FrameSpec struct {
-	Props []string `json:"props"`
-	Func  string   `json:"func"`
-	What  string   `json:"what"`
+	Props   []string `json:"props"`
+	Func    string   `json:"func"`
+	What    string   `json:"what"`
+	LineSep string   `json:"line_sep"` // the line index used for the edit counts this separator (the lexer's line numbers count "\n")
 }
 
 func runFrame(p *Program, c *Collector, f FrameSpec) {
@@ -480,6 +481,13 @@ func runFrame(p *Program, c *Collector, f FrameSpec) {
 		c.Ob(f.Props, "E7.frame", key+" separator", Violated, f.What+": lines are split on "+splitSep.String()+" and joined with "+joinSep.String()+": every line end of the file changes", pos, false)
 	} else {
 		c.Ob(f.Props, "E7.frame", key+" separator", Discharged, "split and join use the same separator "+splitSep.String(), pos, true)
+	}
+	if f.LineSep != "" {
+		if splitSep.Op == "const" && splitSep.C != nil && splitSep.C.Kind() == constant.String && constant.StringVal(splitSep.C) == f.LineSep {
+			c.Ob(f.Props, "E7.frame", key+" line unit", Discharged, fmt.Sprintf("lines are cut at %q, the unit the line numbers of the model count", f.LineSep), pos, true)
+		} else {
+			c.Ob(f.Props, "E7.frame", key+" line unit", Violated, fmt.Sprintf("%s: the file is cut at %s, but the line numbers it is edited by come from the lexer, which counts a line at every %q: in a file with mixed line ends another line is edited", f.What, clip(splitSep.String(), 80), f.LineSep), pos, false)
+		}
 	}
 	_ = writeMode
 }
